@@ -43,6 +43,20 @@ def ensure_deps():
     except ImportError:
         if not os.path.isdir(os.path.join(DEPS_EARLY, 'hypothesis')):
             _pip_target(DEPS_EARLY, ['hypothesis', 'sortedcontainers', 'attrs'])
+    if not os.path.isdir(os.path.join(DEPS_EARLY, 'atheris')):
+        # optional engine (coverage-guided stage of C13's thorough tier); its absence only makes that stage inconclusive
+        tmp = DEPS_EARLY + '.tmp%d' % os.getpid()
+        try:
+            _pip_target(tmp, ['atheris'])
+            os.makedirs(DEPS_EARLY, exist_ok=True)
+            for name in os.listdir(tmp):
+                if not os.path.exists(os.path.join(DEPS_EARLY, name)):
+                    os.rename(os.path.join(tmp, name), os.path.join(DEPS_EARLY, name))
+        except Exception:
+            pass
+        finally:
+            import shutil
+            shutil.rmtree(tmp, ignore_errors=True)
     if not os.path.isdir(os.path.join(DEPS_LATE, 'mpmath')):
         # several checks may start at the same time: install into a private dir, then rename
         tmp = DEPS_LATE + '.tmp%d' % os.getpid()
